@@ -67,17 +67,20 @@ def main():
                 print("patch does not apply:", out[-500:])
                 meta["confirmed"] = False
             else:
-                shutil.copy(demo, os.path.join(wt, "demo.py"))
+                # demonstrations are written to be run as `_seed/demo.py` from the worktree top (some locate the package relative to
+                # their own directory): same place, and the worktree first on the module path
+                os.makedirs(os.path.join(wt, "_seed"), exist_ok=True)
+                shutil.copy(demo, os.path.join(wt, "_seed", "demo.py"))
                 for extra in os.listdir(a.src):
                     if extra.startswith("demo_") or extra.endswith("_helper.py"):
-                        shutil.copy(os.path.join(a.src, extra), wt)
+                        shutil.copy(os.path.join(a.src, extra), os.path.join(wt, "_seed"))
                 rc, out = sh("%s -m pytest -q -p no:cacheprovider --timeout=900 test/ 2>&1 | tail -3" % PY, cwd=wt)
                 m = re.search(r"(\d+) failed, (\d+) passed", out) or re.search(r"(\d+) passed", out)
                 meta["suite_with_patch"] = out.strip().split("\n")[-1]
                 suite_ok = bool(re.search(r"1 failed, 40 passed", out))
-                rc_mut, out_mut = sh("%s demo.py" % PY, cwd=wt, timeout=1200)
+                rc_mut, out_mut = sh("%s _seed/demo.py" % PY, cwd=wt, timeout=1200, env={"PYTHONPATH": wt})
                 sh("git apply -R %s" % patch, cwd=wt)
-                rc_clean, out_clean = sh("%s demo.py" % PY, cwd=wt, timeout=1200)
+                rc_clean, out_clean = sh("%s _seed/demo.py" % PY, cwd=wt, timeout=1200, env={"PYTHONPATH": wt})
                 meta["demo_rc_with_patch"] = rc_mut
                 meta["demo_rc_without_patch"] = rc_clean
                 meta["demo_output_with_patch"] = out_mut[-600:]
